@@ -1,7 +1,7 @@
 # C14 — compression is transparent: decompressing any output gives the plain output.
-import common, gzip, lzma, zlib, io
+import common, p_xw, gzip, lzma, zlib, io
 from concurrent.futures import ThreadPoolExecutor
-THEOREMS = ["C14_transparent", "C14_one_stream_per_output", "C14_nonvacuous"]
+THEOREMS = ["C14_transparent", "C14_one_stream_per_output", "C14_exporter_outputs", "C14_nonvacuous"]
 VARIANT = "plain"
 
 def gen_data(rng, kind, n):
@@ -101,10 +101,16 @@ def run(ctx):
                 b = common.canon_trace([l for l in ml if l.startswith("ev ")], True)
                 if a != b or [l for l in il if not l.startswith("ev")] != [l for l in ml if not l.startswith("ev")]:
                     diffs.append((cid, case, "trace skeleton / outcomes differ: impl %r vs model %r" % (a[-6:], b[-6:])))
+    # the exporter on top of the compressing writers (theorem C14_exporter_outputs)
+    xcases, xdiffs, xfails, xstats = p_xw.section(ctx, p_xw.gen(rng, 40 if tier == "quick" else 1500, comps=("gzip", "xz")), "x", against_plain=True)
+    cases += xcases; diffs += xdiffs; fails += xfails
+    rep.cov.update(xstats)
     common.summarize_cov(rep, cases,
         "byte sequences (zeros, text, random; chunks of 0 B .. 200 KB; one 9 MiB chunk, 33 MiB in the thorough tier) x chunkings x rotation "
         "patterns (incl. consecutive rotations, empty outputs, rotation with much compressed data pending) x {gzip, xz} x {named, descriptor} "
         "through the real writers; each closed output must be exactly one complete stream (Python zlib / lzma, no trailing bytes, .gz/.xz suffix) "
         "decompressing to what the uncompressed writer produced for the same calls; the event skeleton (open/write/close/rename order) is "
-        "compared with the model", diffs, fails)
+        "compared with the model. Then exporter histories on gzip / xz outputs (named and descriptor): results and event skeleton against the "
+        "model chain exporter -> encoder chunks -> compressing writer, each closed output one complete stream decompressing to what the same "
+        "history produces uncompressed", diffs, fails)
     return {"diffs": diffs, "fails": fails, "to_script": lambda c: common.case_script(c)}
